@@ -257,6 +257,32 @@ def two_poly_axes(chk, M, N):
             val = paths[0].value
             val = as_array(val).reshape(-1)[0] if isinstance(val, np.ndarray) else val
             chk.vc(f"{tag}.evaluate", paths[0].pc, Eq(simp(val), simp(P2(y, ys))), func=f"{fnq}.evaluate")
+    # two axes of the SAME direction and endpoint flag converted in OPPOSITE directions by one changeBasis call (nothing computed for one
+    # axis may be reused for the other unless the conversion is the same)
+    for ep in (False, True):
+        A, C_ = (space_poly("pz", ep, axis_size("pz", ep, M, N), t) for t in ("a", "c"))
+        B, D_ = (space_poly("pz", ep, axis_size("pz", ep, M, N), t) for t in ("b", "d"))
+
+        def Q2(u, v, A=A, B=B, C_=C_, D_=D_):
+            return A(u) * B(v) + C_(u) * D_(v)
+        tag = f"M{M}N{N}.rank2-poly.pz-pz.{'with' if ep else 'no'}-endpoints.opposite-conversions"
+
+        def body2(it, ep=ep, Q2=Q2):
+            grid = make_grid(it, M, N)
+            nodes = as_array(it.call_method(grid, "getCompactCoordinates", [ep, "pz"], {})).reshape(-1)
+            c = as_array([[Q2(u, v) for v in nodes] for u in nodes])
+            poly = it.instantiate(ClassRef("polynomial", "Polynomial"), [c, grid, ("Cardinal", "Cardinal"), ("pz", "pz"), (ep, ep)], {})
+            it.call_method(poly, "changeBasis", [("Cardinal", "Chebyshev")], {})
+            it.call_method(poly, "changeBasis", [("Chebyshev", "Cardinal")], {})
+            return it.call_method(poly, "evaluate", [as_array([[y], [ys]])], {}), {}
+        paths = [p for p in enumerate_paths(body2, externals=EXT) if p.outcome == "return"]
+        chk.path_count += len(paths)
+        if len(paths) != 1:
+            chk.undecided.append(f"{tag}: {len(paths)} returning paths")
+            continue
+        val = paths[0].value
+        val = as_array(val).reshape(-1)[0] if isinstance(val, np.ndarray) else val
+        chk.vc(f"{tag}.evaluate", paths[0].pc, Eq(simp(val), simp(Q2(y, ys))), func=f"{fnq}.changeBasis")
     chk.bounded.append({"what": "rank-2 evaluate with two polynomial axes", "bound": f"axes (z, pz), M={M}, N={N}, all endpoint combinations, three basis pairs", "held": True})
 
 
